@@ -199,10 +199,11 @@ func (p *pathState) take(kind byte, c int, cond string) {
 		if fr.caller != nil && pos == token.NoPos {
 			w += " <- " + fr.caller.fn.String()
 		}
-		if len(cond) > 80 {
-			cond = cond[:80]
+		short := cond
+		if len(short) > 80 {
+			short = short[:80]
 		}
-		p.trail = append(p.trail, fmt.Sprintf("%c%d %s  [%s]", kind, c, w, cond))
+		p.trail = append(p.trail, fmt.Sprintf("%c%d %s  [%s]", kind, c, w, short))
 	}
 	p.taken = append(p.taken, int32(c))
 	p.kinds = append(p.kinds, kind)
